@@ -157,6 +157,23 @@ func mk(op string, w int, args ...*Term) *Term {
 				return r
 			}
 		}
+		// distribute over an ite whose branches are constants (case bits, selectors)
+		if op != "and" && op != "or" {
+			if a.op == "ite" && b.isConst && a.args[1].isConst && a.args[2].isConst {
+				x, ok1 := foldBin(op, w, a.args[1], b)
+				y, ok2 := foldBin(op, w, a.args[2], b)
+				if ok1 && ok2 {
+					return mkIte(a.args[0], x, y)
+				}
+			}
+			if b.op == "ite" && a.isConst && b.args[1].isConst && b.args[2].isConst {
+				x, ok1 := foldBin(op, w, a, b.args[1])
+				y, ok2 := foldBin(op, w, a, b.args[2])
+				if ok1 && ok2 {
+					return mkIte(b.args[0], x, y)
+				}
+			}
+		}
 		switch op {
 		case "and":
 			if a.isConst {
@@ -303,6 +320,9 @@ func resize(t *Term, tw int, signed bool) *Term {
 			return bv(tw, uint64(sext(t.c, t.w)))
 		}
 		return bv(tw, t.c)
+	}
+	if t.op == "ite" && t.args[1].isConst && t.args[2].isConst {
+		return mkIte(t.args[0], resize(t.args[1], tw, signed), resize(t.args[2], tw, signed))
 	}
 	if tw < t.w {
 		return &Term{op: "extract", w: tw, args: []*Term{t}, p1: tw - 1, p2: 0}
